@@ -446,4 +446,44 @@ theorem C02_gpos11_agrees : type_of% @GposSub.read11_erase := @GposSub.read11_er
 Statement: `∀ (b : Bytes) (pos : Nat), Otl.erase (GposSub.read12 b pos) = Otl.Gpos.read12 (List.drop pos b)` -/
 theorem C02_gpos12_agrees : type_of% @GposSub.read12_erase := @GposSub.read12_erase
 
+/-- Since 8867078 (lookup types and formats above 9 are refused) the GSUB dispatcher agrees with C08's `Gsub.readSubtable` on every input for every lookup type other than 5, 6, 7 (no condition on the format word).
+
+Statement: `∀ (tp : Nat) (b : Bytes) (pos : Nat), tp ≠ 5 → tp ≠ 6 → tp ≠ 7 → Otl.erase (GsubSub.readSubtable tp b pos) = Otl.Gsub.readSubtable tp (List.drop pos b)` -/
+theorem C02_gsub_dispatch_agrees : type_of% @GsubSub.readSubtable_erase := @GsubSub.readSubtable_erase
+
+/-- Before 8867078 the reader key 10·LookupType+format, computed in uint16, collided: type 1 format 11 was decoded as GSUB 2.1, type 6560 format 7 reached the extension reader.
+
+Statement: `(GsubSub.readSubtableOld 1 [0, 11, 0, 6, 0, 0, 0, 1, 0, 0] 0).isOk = true ∧ GsubSub.errOf (GsubSub.readSubtableOld 4 [0, 11] 0) = some "foreign" ∧ GsubSub.errOf (GsubSub.readSubtableOld 6560 [0, 7] 0) = some "foreign"` -/
+theorem C02_gsub_dispatch_unrepaired_collision : type_of% @GsubSub.readSubtableOld_key_collision := @GsubSub.readSubtableOld_key_collision
+
+/-- Lookup type 6: the dispatcher + chained readers equal C08's `Ctx.readSubtable 6` on every input (the former format-word side condition is gone).
+
+Statement: `∀ (b : Bytes) (pos : Nat), Otl.erase (ChainCtx.readChained b pos) = Otl.Ctx.readSubtable 6 (List.drop pos b)` -/
+theorem C02_chain_dispatch_agrees : type_of% @ChainCtx.readChained_erase := @ChainCtx.readChained_erase
+
+/-- Lookup type 5: the dispatcher equals C08's `Ctx.readSubtable 5` for format 3, every invalid format word and a missing format word (formats 1 and 2 lack the top-level bridge).
+
+Statement: `∀ (b : Bytes) (pos : Nat), Otl.wordAt b pos ≠ some 1 → Otl.wordAt b pos ≠ some 2 → SeqCtx.eraseSub (SeqCtx.gsub5 b pos) = Otl.Ctx.readSubtable 5 (List.drop pos b)` -/
+theorem C02_seqctx_dispatch_agrees : type_of% @SeqCtx.gsub5_erase := @SeqCtx.gsub5_erase
+
+/-- GPOS lookup type 1: the dispatcher equals C08's `Gpos.readSubtable 1` on every input.
+
+Statement: `∀ (b : Bytes) (pos : Nat), Otl.mapOk GposSub.toC08 (Otl.erase (GposSub.readSubtable b pos 1)) = Otl.mapOk some (Otl.Gpos.readSubtable 1 (List.drop pos b))` -/
+theorem C02_gpos_dispatch_agrees : type_of% @GposSub.readSubtable_erase_type1 := @GposSub.readSubtable_erase_type1
+
+/-- Since 8867078 no extension subtable is left in a successfully read GSUB lookup list (so `Context.Apply`'s "unreachable" branch for extension subtables cannot be reached from decoded tables).
+
+Statement: `∀ {σ : Type} (sub : LookupList.SubReaders σ) (b : Bytes) (pos : Nat) (r : List (LookupList.Lookup σ)) (c : Cost), LookupList.readLookupList (LookupList.gsubReader sub b) b pos = Outcome.ok (r, c) → ∀ (l : LookupList.Lookup σ), l ∈ r → ∀ (s : LookupList.SubV σ), s ∈ l.subs → ¬s.isExt` -/
+theorem C02_lookuplist_no_ext_ext : type_of% @LookupList.dispatch_no_ext_ext := @LookupList.dispatch_no_ext_ext
+
+/-- The same for GPOS lookup lists.
+
+Statement: `∀ {σ : Type} (sub : LookupList.SubReaders σ) (b : Bytes) (pos : Nat) (r : List (LookupList.Lookup σ)) (c : Cost), LookupList.readLookupList (LookupList.gposReader sub b) b pos = Outcome.ok (r, c) → ∀ (l : LookupList.Lookup σ), l ∈ r → ∀ (s : LookupList.SubV σ), s ∈ l.subs → ¬s.isExt` -/
+theorem C02_lookuplist_no_ext_ext_gpos : type_of% @LookupList.dispatch_no_ext_ext_gpos := @LookupList.dispatch_no_ext_ext_gpos
+
+/-- The 42-byte input of the repaired finding C02-lookuplist-ext-ext is now refused as invalid.
+
+Statement: `∀ {σ : Type} (sub : LookupList.SubReaders σ), LookupList.readLookupList (LookupList.gsubReader sub LookupList.extExtBytes) LookupList.extExtBytes 0 = Outcome.err "invalid"` -/
+theorem C02_lookuplist_ext_ext_rejected : type_of% @LookupList.ext_ext_rejected := @LookupList.ext_ext_rejected
+
 end SfntV.Props.C02B
